@@ -142,6 +142,8 @@ class Block:
                 new_circuit._emplace_gate(label=_input, gate_type=gate.INPUT)
 
         for gate_label in self.gates:
+            if new_circuit.has_gate(gate_label):
+                continue
             cur_gate: gate.Gate = self._owner.get_gate(gate_label)
             new_circuit._emplace_gate(
                 label=cur_gate.label,
